@@ -1,9 +1,75 @@
 import Driver.Json
-open Lean Drv
+import Model.Tpt
+open Lean Drv Ens Ens.Tpt
 
 namespace Drv.C07
 
-def handle (op : String) (_req : Json) : Except String Json :=
-  throw s!"bad-op C07.{op}"
+def errStr : Err → String
+  | .indexError => "index-error"
+  | .singular => "singular"
+  | .zeroDivision => "zero-division"
+
+/-- JSON list of rows of `[num, den]` → index function (entries outside the sent block are 0
+and are never read by the model: every function takes the size `n`). -/
+def getMat (j : Json) : Except String (Nat × Mat) := do
+  let rows ← getList (getList getRat) j
+  let a : Array (Array Rat) := (rows.map List.toArray).toArray
+  if rows.any (fun r => r.length ≠ rows.length) then throw "matrix not square"
+  pure (rows.length, fun i k => (a.getD i #[]).getD k 0)
+
+def getVec (n : Nat) (j : Json) : Except String Vec := do
+  let xs ← getList getRat j
+  if xs.length ≠ n then throw "vector length"
+  let a := xs.toArray
+  pure fun i => a.getD i 0
+
+def vecJson (n : Nat) (v : Vec) : Json := listJson ratJson (tabulate n v)
+def matJson (n m : Nat) (M : Mat) : Json :=
+  listJson (fun i => listJson ratJson (tabulate m (M i))) (List.range n)
+
+def handle (op : String) (req : Json) : Except String Json := do
+  match op with
+  | "imq" =>
+    let (n, T) ← getMat (← field req "T")
+    let ab ← getList getNat (← field req "absorbing")
+    if idxOk n ab then pure (okJson (matJson n n (ImQ T ab))) else pure (errJson "index-error")
+  | "rmat" =>
+    let (n, T) ← getMat (← field req "T")
+    let so ← getList getNat (← field req "sources")
+    let si ← getList getNat (← field req "sinks")
+    if idxOk n so && idxOk n si then pure (okJson (matJson n si.length (Rmat T so si)))
+    else pure (errJson "index-error")
+  | "committors" =>
+    let (n, T) ← getMat (← field req "T")
+    let so ← getList getNat (← field req "sources")
+    let si ← getList getNat (← field req "sinks")
+    match committors n T so si with
+    | .error e => pure (errJson (errStr e))
+    | .ok q => pure (okJson (vecJson n q))
+  | "mfpts_sinks" =>
+    let (n, T) ← getMat (← field req "T")
+    let si ← getList getNat (← field req "sinks")
+    let lag ← getRat (← field req "lag")
+    match mfptsSinks n T si lag with
+    | .error e => pure (errJson (errStr e))
+    | .ok t => pure (okJson (vecJson n t))
+  | "eq_probs" =>
+    let (n, T) ← getMat (← field req "T")
+    match eqProbs n T with
+    | .error e => pure (errJson (errStr e))
+    | .ok p => pure (okJson (vecJson n p))
+  | "mfpts_all" =>
+    let (n, T) ← getMat (← field req "T")
+    let lag ← getRat (← field req "lag")
+    let pi ← match fieldOpt req "pi" with
+      | some j => do let v ← getVec n j; pure (Except.ok v)
+      | none => pure (eqProbs n T)
+    match pi with
+    | .error e => pure (errJson (errStr e))
+    | .ok p =>
+      match mfptsAll n T p lag with
+      | .error e => pure (errJson (errStr e))
+      | .ok m => pure (okJson (matJson n n m))
+  | _ => throw s!"bad-op C07.{op}"
 
 end Drv.C07
